@@ -443,6 +443,9 @@ def run_shapes(prop, tier, seed):
         v.nontrivial = rep["stats"].get("ok", 0)
         v.extra["replay"] = {"cases": len(hists), "cold": rep["stats"], "warm": repw["stats"]}
         v.exhaustive = True
+        if prop == "C04":
+            import defgraph
+            defgraph.shipped_pairs(v, tier, seed)
     else:  # C07: partially connected configurations x interpreter modes
         masks = list(range(64)) if tier == "thorough" else [33] + rng.sample(range(0, 63), 1)
         total_nontrivial = 0
